@@ -54,6 +54,63 @@ func runC03(p *core.Program, r *core.Report) {
 	c03R1R3R7(p, r)
 	c03R2(p, r)
 	c03Tracker(p, r)
+	c03R8(p, r)
+}
+
+// c03R8: rendering a snippet registers its imports with the tracker of the
+// writer that renders it, so a snippet must not remember anything a previous
+// rendering resolved: no Frag/IsNil method of pkg/gengo/snippet writes its
+// receiver (or any other non-local memory).
+func c03R8(p *core.Program, r *core.Report) {
+	const rule = "R8"
+	r.Floor(rule, 1)
+	n := 0
+	for _, f := range p.Funcs() {
+		if core.RelPkg(f.Pkg.PkgPath) != "pkg/gengo/snippet" {
+			continue
+		}
+		root := f.Root()
+		if root.Decl == nil || root.Decl.Recv == nil || (root.Decl.Name.Name != "Frag" && root.Decl.Name.Name != "IsNil") {
+			continue
+		}
+		n++
+		for _, w := range nonLocalWrites(f) {
+			// plumbing of the iterator closures (captured locals of the same method) is fine
+			var lhs []ast.Expr
+			switch x := w.(type) {
+			case *ast.AssignStmt:
+				lhs = x.Lhs
+			case *ast.IncDecStmt:
+				lhs = []ast.Expr{x.X}
+			}
+			if len(lhs) > 0 {
+				local := true
+				for _, l := range lhs {
+					rootE := l
+					for {
+						switch x := ast.Unparen(rootE).(type) {
+						case *ast.SelectorExpr:
+							rootE = x.X
+							continue
+						case *ast.IndexExpr:
+							rootE = x.X
+							continue
+						}
+						break
+					}
+					v := core.VarOf(f.Info(), rootE)
+					if v == nil || !(root.Body.Pos() <= v.Pos() && v.Pos() < root.Body.End()) {
+						local = false
+					}
+				}
+				if local {
+					continue
+				}
+			}
+			r.Bad(rule, f, "snippet rendering writes non-local state: "+core.ExprStr(w), w.Pos(), "a snippet remembers something resolved by an earlier rendering (e.g. a cached import name): when the same snippet value is rendered by a second writer its package is not registered with that writer's tracker - the reference is printed without an import, or qualified in its own package")
+		}
+	}
+	r.OK(rule, nil, "snippet rendering (Frag/IsNil in pkg/gengo/snippet) is free of receiver writes", token.NoPos, itoa(int64(n))+" method bodies and closures scanned")
 }
 
 func c03R1R3R7(p *core.Program, r *core.Report) {
